@@ -89,6 +89,7 @@ pub fn replay_one(ctx: &mut Ctx, path: &std::path::Path) {
         "async" => go!(crate::engine_async::AsyncCase, |c: &crate::engine_async::AsyncCase| crate::engine_async::run(c, prop)),
         "thr" => go!(ThrCase, |c: &ThrCase| engine_thr::run_repeated(c, prop, 2000)),
         "zst" => go!(crate::engine_zst::ZCase, |c: &crate::engine_zst::ZCase| crate::engine_zst::run(c, prop)),
+        "zvec" => go!(crate::engine_zvec::ZvCase, |c: &crate::engine_zvec::ZvCase| crate::engine_zvec::run(c, prop)),
         e => ctx.inconclusive.push(format!("unknown engine {e:?} in {}", path.display())),
     }
 }
@@ -258,6 +259,13 @@ fn vec_check(ctx: &mut Ctx) {
     for (name, cfg, q, t) in vec_phases(prop) {
         let n = ctx.pick(q, t);
         ctx.random(name, "vec", &|| vec_gen::case(&cfg), &run, n);
+    }
+    // elements of a zero-sized type: lengths, applicability and ends are all there is to observe
+    if matches!(prop, Prop::C05 | Prop::C08 | Prop::C09 | Prop::C10 | Prop::C11) {
+        let run_z = move |c: &crate::engine_zvec::ZvCase| crate::engine_zvec::run(c, prop);
+        let views = crate::engine_zvec::views_for(prop);
+        let n = ctx.pick(30_000, 400_000);
+        ctx.random("zero-sized-elements", "zvec", &move || crate::engine_zvec::case(views.clone()), &run_z, n);
     }
     // the same generators on vectors of up to 200 items: imbl switches from its inline /
     // single-chunk representation to a multi-chunk RRB tree at 64 items
